@@ -1,0 +1,127 @@
+//! Verification hooks. Compiled only with `--cfg gm_rs_verif`; the default build does not
+//! contain this module and none of the call sites below.
+//!
+//! * observation / override of the 32 random bytes that become a secret scalar candidate
+//! * public wrappers around crate-private arithmetic so that an external monitor can compare
+//!   it with a reference model
+use std::cell::RefCell;
+use std::collections::VecDeque;
+
+use crate::error::Sm2Result;
+use crate::p256_ecc::Point;
+use crate::u256::U256;
+
+pub use crate::fields::fn64;
+pub use crate::fields::fp64;
+pub use crate::fields::FieldModOperation;
+
+/// Per-thread record of what the scalar generator saw (same sharing discipline as `thread_rng`).
+#[derive(Default)]
+pub struct RngLog {
+    /// every candidate handed to the range test, after a possible override
+    pub candidates: Vec<[u8; 32]>,
+    /// `true` where the candidate came from the injection queue
+    pub injected: Vec<bool>,
+    /// every scalar that left the generator
+    pub accepted: Vec<U256>,
+}
+
+#[derive(Default)]
+struct RngState {
+    inject: VecDeque<[u8; 32]>,
+    log: RngLog,
+    draws: u64,
+    step_limit: u64,
+}
+
+/// Panic payload used when more than `step_limit` candidates are drawn since the last reset.
+#[derive(Debug)]
+pub struct StepLimitExceeded(pub u64);
+
+thread_local! {
+    static RNG: RefCell<RngState> = RefCell::new(RngState::default());
+}
+
+/// Called by `random_u256` after the CSPRNG filled `buf`.
+pub fn candidate(buf: &mut [u8; 32]) {
+    let over = RNG.with(|s| {
+        let mut s = s.borrow_mut();
+        s.draws += 1;
+        if s.step_limit != 0 && s.draws > s.step_limit {
+            return Some(s.draws);
+        }
+        let inj = if let Some(b) = s.inject.pop_front() {
+            *buf = b;
+            true
+        } else {
+            false
+        };
+        s.log.candidates.push(*buf);
+        s.log.injected.push(inj);
+        None
+    });
+    if let Some(n) = over {
+        std::panic::panic_any(StepLimitExceeded(n));
+    }
+}
+
+/// Called by `random_u256` with the scalar it returns.
+pub fn accepted(v: &U256) {
+    RNG.with(|s| s.borrow_mut().log.accepted.push(*v));
+}
+
+/// Forget log, queue and draw counter; set the per-call draw limit (0 = unlimited).
+pub fn rng_reset(step_limit: u64) {
+    RNG.with(|s| {
+        let mut s = s.borrow_mut();
+        *s = RngState::default();
+        s.step_limit = step_limit;
+    });
+}
+
+/// Queue bytes that replace the next candidate(s).
+pub fn rng_inject(b: [u8; 32]) {
+    RNG.with(|s| s.borrow_mut().inject.push_back(b));
+}
+
+/// Number of queued overrides not yet consumed.
+pub fn rng_pending() -> usize {
+    RNG.with(|s| s.borrow().inject.len())
+}
+
+/// Take the log accumulated since the last reset/take.
+pub fn rng_take_log() -> RngLog {
+    RNG.with(|s| std::mem::take(&mut s.borrow_mut().log))
+}
+
+pub fn fp_to_mont(a: &U256) -> U256 {
+    fp64::fp_to_mont(a)
+}
+
+pub fn fp_from_mont(a: &U256) -> U256 {
+    fp64::fp_from_mont(a)
+}
+
+pub fn fp_mont_mul(a: &U256, b: &U256) -> U256 {
+    fp64::mont_mul(a, b)
+}
+
+pub fn point_from_byte(b: &[u8]) -> Sm2Result<Point> {
+    Point::from_byte(b)
+}
+
+pub fn to_jacobi(x: &U256, y: &U256) -> Point {
+    crate::p256_ecc::to_jacobi(x, y)
+}
+
+pub fn precomputed() -> &'static [[U256; 510]; 32] {
+    &crate::sm2p256_table::SM2P256_PRECOMPUTED
+}
+
+pub fn exchange_key(e: &crate::exchange::Exchange) -> Option<Vec<u8>> {
+    e.k.clone()
+}
+
+pub fn default_id() -> &'static str {
+    crate::util::DEFAULT_ID
+}
